@@ -12,7 +12,7 @@ warnings.filterwarnings("ignore")
 # text form shared with extraction/main.ml:
 #   (c i5) (c f1/2) (c nan) (v 120) (neg e) (fact e) (sgn e) (add a b) (sub..) (mul..) (div..) (pow..) (eq..)
 # tuple form:  ('c', ('i', 5)) | ('c', ('f', Fraction)) | ('c', ('nan',)) | ('v', 120) | ('neg', e) | ('add', a, b)
-UN = ("neg", "fact", "sgn")
+UN = ("neg", "fact", "sgn", "abs")   # abs: AbsExpression - constructor-built only (`abs` is not a function name of the tokenizer)
 BIN = ("eq", "add", "sub", "mul", "div", "pow")
 
 
@@ -154,7 +154,7 @@ def classes():
     return {
         "eq": E.EqualExpression, "add": E.AddExpression, "sub": E.SubtractExpression, "mul": E.MultiplyExpression,
         "div": E.DivideExpression, "pow": E.PowerExpression, "neg": E.NegateExpression, "fact": E.FactorialExpression,
-        "sgn": E.SgnExpression,
+        "sgn": E.SgnExpression, "abs": E.AbsExpression,
     }
 
 
@@ -317,6 +317,8 @@ def eval_exact(t, env, stats=None):
         v = env[t[1]]
     elif k == "neg":
         v = -eval_exact(t[1], env, stats)
+    elif k == "abs":
+        v = abs(eval_exact(t[1], env, stats))
     elif k == "sgn":
         c = eval_exact(t[1], env, stats)
         if ILL[0] and abs(c) <= F(1, 10 ** 9) * max(1, stats[0] if stats else 0):
